@@ -180,7 +180,7 @@ def describe_diff(a, b):
     return "equal"
 
 
-MODES = ["separate", "separate", "inplace", "fileobj", "over-longer", "copy", "write-twice"]
+MODES = ["separate", "separate", "inplace", "fileobj", "over-longer", "copy", "write-twice", "after-failed-write"]
 
 
 def roundtrip(text_path, is_molecule, label, mode="separate"):
@@ -203,6 +203,12 @@ def roundtrip(text_path, is_molecule, label, mode="separate"):
             f.write(original + "\n[ bonds ]\n" + "1 2 1 0.1 1000 ; left over\n" * 50)
     if mode == "copy":                          # the file is written from ItpFile.copy() (an equal but distinct object)
         itp = lib("copy", itp.copy)
+    elif mode == "after-failed-write":          # error-then-continue: the first write cannot open its target
+        try:
+            with env.quiet():
+                itp.write(os.path.join(os.path.dirname(out1), "no-such-directory", "x.itp"))
+        except Exception:      # noqa: BLE001
+            pass
     elif mode == "write-twice":                 # the same object written twice: both files carry everything
         lib("write", itp.write, env.fresh_path(".itp"))
     lib("write", itp.write, out1)
@@ -280,7 +286,7 @@ def check_text(case):
 
 def shipped_cases(tier, seed):
     names = sorted(f for f in os.listdir(env.DATA) if f.endswith(".itp"))
-    return [{"file": nm, "mode": m} for nm in names for m in ("separate", "inplace", "fileobj", "over-longer", "copy", "write-twice")], True
+    return [{"file": nm, "mode": m} for nm in names for m in ("separate", "inplace", "fileobj", "over-longer", "copy", "write-twice", "after-failed-write")], True
 
 
 def check_shipped(case):
